@@ -17,7 +17,7 @@ Vals == 1..NV
 
 \* value 1: the tracked general category; value 2: combining class 9 (virama); value 3: <wide>/<narrow> mapping
 BidiOf(v) == IF v = 1 THEN "L" ELSE IF v = 2 THEN "NSM" ELSE "R"
-WmTarget(cp) == cp + 32
+WmTarget(cp) == 32 + (cp \div 2)      \* not injective: neighbouring entries may share a mapping target
 
 VARIABLES lines, last, fold, gc, vir, un, bidi, wm
 vars == <<lines, last, fold, gc, vir, un, bidi, wm>>
